@@ -118,7 +118,8 @@ def eval_cases(ctx, descs):
         fails += ["finalize_constraints: " + s for s in violations(fin, fcfg, scale)]
       fails += ["LatticeConstraints: " + s for s in violations(out, cfg, scale)]
       # feasible kernels are returned unchanged
-      if not violations(W, dict(cfg), 0.0) and latpred.unimodality_viol(W, cfg["sizes"], cfg["uni"]) <= 0 \
+      if not violations(W, dict(cfg), 0.0) and latpred.trapezoid_viol(W, cfg["sizes"], cfg["trap"]) <= 0 \
+         and latpred.unimodality_viol(W, cfg["sizes"], cfg["uni"]) <= 0 \
          and latpred.monotonic_dominance_viol(W, cfg["sizes"], cfg["mdom"]) <= 0 \
          and latpred.range_dominance_viol(W, cfg["sizes"], cfg["rdom"]) <= 0 \
          and latpred.joint_monotonicity_viol(W, cfg["sizes"], cfg["jmono"]) <= 0 and not cfg["juni"]:
